@@ -17,7 +17,7 @@ import concurrent.futures, os, re, shutil, subprocess, sys, time
 import cclib, gens
 
 sys.path.insert(0, os.path.dirname(os.path.abspath(__file__)))
-import inventory as _inv
+import inventory_features as _inv
 
 THEOREMS = [
     "cfg_exclusive", "optional_deps_guarded", "refs_resolved_partial", "refs_resolved_baseline",
